@@ -152,9 +152,15 @@ CHECKS["C18"] = dict(
     technique="TLA+ refinement mapping doc text -> object table (DocRefine) + TLC trace validation of documented examples against WowmWire!Dec (TraceDocExamples); artefacts from tools/regen.py (generator built from the current tree); self-test by text mutation",
 )
 
-NOT_YET = {
-    "C07": "not built in this round: needs a constructive grammar spec (WowmGrammar.tla) whose generated programs are compiled by the generator and rustc per batch; the wire model, front-end and replay it would reuse exist (DESIGN.md section 5 C07)",
-}
+CHECKS["C07"] = dict(
+    category="model_checking",
+    text="spec/WowmGrammar.tla: constructive specification of well-formed wowm programs (partial program as state; 16 actions adding definers, structs, scalars, constants, self.size, enum/flag fields with upcast, fixed/variable/endless arrays, if / else-if / else with ==, !=, &, ||, nested once, optional tail; every step guarded by the rule of lang-spec.md it transcribes; invariants NamesUnique, TailLast, IfsWellFormed, DefinersOk on every state). tlc -simulate (VERIF_SEED) yields 40 (quick) / 700 (thorough) distinct programs, selected to span the feature inventory; each is printed as wowm (printer/parser round trip against the independent front-end), embedded in place of an existing Vanilla message of a scratch copy, and taken through the REAL generator (must exit 0), WowmStatic (C16's rules: must break none), rustc (scratch wow_world_base / wow_world_messages with sync+tokio+async-std+vanilla must compile) and WowmWire (all canonical encodings; SizeAgrees, UniquelyDecodable) whose behaviours are replayed through the public opcode enums of the freshly built crates: accepted, exact consumption, byte-identical re-encode, size assertion. Failures are attributed to single programs (diagnostic text, bisection, generated file names) and reported with the program text.",
+    design_ref="DESIGN.md section 5 C07, notes/C07.md",
+    note="Trusted: tools/wowm_front.py, tools/lower.py, tools/wowm_print.py (round trip checked, reproduces all 1,907 corpus objects), WowmWire/WowmTypes, the derived harness vh7, TLC. Bounds: <= 3 definers, 2 structs, 10 message members, ifs nested once; world cmsg/smsg of 1.12 only (no login, msg, compressed, masks, UpdateMask, NamedGuid); self.size u16/u32; identifiers digit-free and workspace-unique (the Wireshark name-stem finding is probed separately); sampling, not exhaustive. Generator defects on shapes the corpus does not use are listed in known_findings.jsonl (keys c07-*) or repaired by fix: commits (DESIGN.md 10.3).",
+    technique="TLA+ spec explored with TLC in simulation mode (invariants on every state), programs cross-checked by two independently written TLA+ specs (WowmStatic, WowmWire) and replayed into the real generator, rustc and the freshly generated codecs",
+)
+
+NOT_YET = {}
 
 def main():
     props = [json.loads(l)["id"] for l in open(os.path.join(HERE, "properties.jsonl"))]
